@@ -304,6 +304,14 @@ class VLinkBag(V):
         self.cnt = cnt
 
 
+class VChain(V):
+    """itertools.chain(p1, p2, ...): kept as the list of its parts"""
+    kind = 'chain'
+
+    def __init__(self, parts):
+        self.parts = parts
+
+
 class VSeq(V):
     """symbolic-length sequence: length n (z3 Int) and element access elem(i)->V; immutable value
     (appends build a new VSeq).  `sorted_` records the trusted post-condition of sorted()."""
